@@ -121,6 +121,8 @@ long time_to_epoch_contract(struct tm *ltm, int utcdiff)
 }
 void Tickval_ctor_bool(struct Tickval_m *self, _Bool now) { self->ns = now ? nondet_long() : 0; }
 long Tickval_get_ticks(struct Tickval_m *self) { return self->ns; }
+static const long g_errorticks = 9223372036854775807L;   /* Tickval::errorticks(): f8_time_point::max() in ns */
+const long *Tickval_errorticks(void) { return &g_errorticks; }
 '''
 
 POST = r'''
@@ -311,7 +313,7 @@ UNIT = dict(
     name='k_date',
     tu='tu/core.cpp',
     emit=dict(calls={'FIX8::Tickval::get_tm': 'Tickval_get_tm', 'FIX8::Tickval::msecs': 'Tickval_msecs',
-                     'FIX8::Tickval::get_ticks': 'Tickval_get_ticks', 'FIX8::Tickval::Tickval': 'Tickval_ctor_bool',
+                     'FIX8::Tickval::get_ticks': 'Tickval_get_ticks', 'errorticks': 'Tickval_errorticks', 'FIX8::Tickval::Tickval': 'Tickval_ctor_bool',
                      'format0': 'format0', 'parse_decimal': 'parse_decimal', 'time_to_epoch': 'time_to_epoch'},
               type_map=[(r'tm', 'struct tm'), (r'FIX8::Tickval', 'struct Tickval_m'), (r'FIX8::TimeIndicator', 'unsigned int'),
                         (r'(FIX8::)?Tickval::ticks', 'long')],
